@@ -14,10 +14,10 @@ pub mod w6 {
       relation r3(i64, i64);
       relation r4(i64, i64);
       r2(v0) <-- r1(v0, v1);
-      r3((v0 + 1), v0) <-- let v0 = 2, r2(1), if (v0 < 6);
+      r3((v0 + 1), v0) <-- let v0 = 2, r2(1), if (v0 < 6), if (v0 <= 6);
       r4(v0, v1) <-- r3(v0, v1), if let Some(v2) = Some((*v1));
-      r3(v0, v2) <-- r4(v0, v1), r0(v1, v2), r1(v2, v3);
-      r2(v0) <-- if let Some(v9) = Some(1), r3(v0, v1), r1(v1, v9) let v8 = ((*v0) + 1);
+      r2(v0) <-- r4(v0, v1), r0(v0, v0), r4(v1, v2);
+      r2(v0) <-- for v9 in 0..2, r0(v0, v1), r3(v9, v1);
       r2(v1) <-- if let Some(v0) = Some(1), r2((v0 + 1)), r1(v1, v2) if ((*v1) < 2), for v3 in [4, 1], r0(v3, v0);
    }
    pub struct Inst { p: Prog, pool: Option<ascent::rayon::ThreadPool> }
